@@ -109,12 +109,12 @@ func safePrimePairRule(P *Program, R *Report) {
 	if !inlined {
 		mp(P, R, rule, kGenPair+":q-from-findMatch", "(p, q) returned => q is the non-nil result of findMatch(candidates, param, p, ...)", fn, AcceptNonNil(0), &MustPass{Match: func(a Atom) bool {
 			c, _ := callAndResult(a.V)
-			return c != nil && calleeName(c) == kFindM && a.Want == NonNil && c.Call.Args[2] == recv
+			return c != nil && calleeIs(c, kFindM) && a.Want == NonNil && c.Call.Args[2] == recv
 		}})
 		okQ := false
 		for _, r := range returnsOf(fn) {
 			if !isNilConst(r.Results[0]) {
-				if c, isC := r.Results[1].(*ssa.Call); isC && calleeName(c) == kFindM {
+				if c, isC := r.Results[1].(*ssa.Call); isC && calleeIs(c, kFindM) {
 					okQ = true
 				}
 			}
@@ -384,7 +384,7 @@ func generateKeyPairRule(P *Program, R *Report) {
 					return false
 				}
 				c, isC := g.SubjV.(*ssa.Call)
-				return isC && calleeName(c) == "common.LegendreSymbol" && sameValue(c.Call.Args[0], sv) && desc(c.Call.Args[1]) == "new:gabikeys.PrivateKey."+f
+				return isC && calleeIs(c, "common.LegendreSymbol") && sameValue(c.Call.Args[0], sv) && desc(c.Call.Args[1]) == "new:gabikeys.PrivateKey."+f
 			}}).MustReach(fn, sStore)
 			R.decide(rule, kGenKey+":S-residue-mod-"+f, "S accepted => Legendre symbol of S modulo "+f+" is 1", r.Holds, r.Path, P.Pos(sStore.Pos()))
 		}
@@ -411,7 +411,7 @@ func generateKeyPairRule(P *Program, R *Report) {
 		okBase := desc(a[1]) == "new:gabikeys.PublicKey.S" && desc(a[3]) == "new:gabikeys.PublicKey.N"
 		x := a[2]
 		g := genCallOf(phiFirst(x))
-		okFresh := g != nil && calleeName(g) == "common.RandomBigInt"
+		okFresh := g != nil && calleeIs(g, "common.RandomBigInt")
 		if okFresh && inLoop {
 			l := innermostLoopOf(expCall.Block())
 			okFresh = l != nil
@@ -458,7 +458,7 @@ func generateKeyPairRule(P *Program, R *Report) {
 							if isNilConst(rv) {
 								continue
 							}
-							if gg := genCallOf(phiFirst(rv)); gg == nil || calleeName(gg) != "common.RandomBigInt" {
+							if gg := genCallOf(phiFirst(rv)); gg == nil || !calleeIs(gg, "common.RandomBigInt") {
 								okFresh = false
 							}
 							if !okAcc {
@@ -782,7 +782,7 @@ func goroutineProtocolRule(P *Program, R *Report, rule string) {
 			for _, g := range append([]*ssa.Function{fn}, closureFuncs(fn)...) {
 				allInstrs(g, func(j ssa.Instruction) {
 					cc, ok := j.(*ssa.Call)
-					if !ok || calleeName(cc) != "(*sync.Once).Do" {
+					if !ok || !calleeIs(cc, "(*sync.Once).Do") {
 						return
 					}
 					if mc, ok := cc.Call.Args[1].(*ssa.MakeClosure); ok && mc.Fn == ssa.Value(f) {
